@@ -566,6 +566,11 @@ def handle (line : String) : String × String :=
     (Wellen.FstFile.model design unit, Wellen.GhwSpec.specFst design unit)
   | ["fstfile", design, unit, _, dups] =>
     (Wellen.FstFile.model design unit dups, Wellen.GhwSpec.specFst design unit dups)
+  | ["fstfile", design, unit, _, dups, srcs] =>
+    -- the source locators the writer attached to scopes are reported as written (`|src=` suffix, absent when there are none)
+    let sfx := if srcs = "-" then "" else "|src=" ++ srcs
+    let addS := fun (r : String) => if r = "-" || r = "panic" || r = "bad-request" then r else r ++ sfx
+    (addS (Wellen.FstFile.model design unit dups), addS (Wellen.GhwSpec.specFst design unit dups))
   | "pairhex" :: design :: files =>
     let o := Wellen.GhwSpec.specObserve design
     let r := "#".intercalate (files.map fun _ => o)
